@@ -228,12 +228,14 @@ def isPushCall : Call → Bool
 def isPopCall : Call → Bool
   | .pop => true
   | .popWait _ => true
+  | .popWaitT _ => true
   | _ => false
 
 /-- calls that may return `(zero, false)`: `Pop` and `PopWait(0)`, not `PopWait(d<0)` -/
 def mayFail : Call → Bool
   | .pop => true
   | .popWait false => true
+  | .popWaitT _ => true
   | _ => false
 
 /-- One event of the thread itself.  State = (calls not yet returned, current one first;
@@ -317,6 +319,13 @@ theorem AOk_setPc {g g' : Ghost} {i : Nat} {th : Thread} {st : List Call × Phas
   ⟨hA.todo, hc, fun h => by rw [hg]; exact hA.post (by rw [← hp]; exact h),
    fun h => hA.npost (by rw [← hp]; exact h)⟩
 
+/-- same, when the tick counter changes too -/
+theorem AOk_setPcTicks {g : Ghost} {i : Nat} {th : Thread} {st : List Call × Phase} {pc' : Pc}
+    {k : Nat} (hA : AOk g i th st) (hc : CurOk { th with pc := pc', ticks := k })
+    (hp : isPopPost pc' = isPopPost th.pc) : AOk g i { th with pc := pc', ticks := k } st :=
+  ⟨hA.todo, hc, fun h => hA.post (by rw [← hp]; exact h),
+   fun h => hA.npost (by rw [← hp]; exact h)⟩
+
 theorem step_threads_ne (s : State) {i j : Nat} (hij : j ≠ i) :
     (step .addThenStore s i).1.threads[j]? = s.threads[j]? := by
   have hne : i ≠ j := fun e => hij e.symm
@@ -389,6 +398,7 @@ theorem mayFail_of_not_spin {th : Thread} {cc : Call} (hc : th.cur = some cc)
     | false => rfl
     | true => exact absurd (by unfold Thread.spin; rw [hc]; rfl) h
   | pop => rfl
+  | popWaitT k => rfl
   | push v => simp [isPopCall] at hp
   | len => simp [isPopCall] at hp
 
@@ -407,6 +417,12 @@ theorem auto_popFail {s : State} {g : Ghost} {i : Nat} {th : Thread} {c : List C
       rfl, AOk_setPc hA ?_ (by rw [hnp]; rfl) rfl⟩
     simp only [CurOk]; exact spin_cur hsp
   · simp only [hsp]
+    by_cases htk : 0 < th.ticks
+    · simp only [htk, if_true]
+      refine ⟨(c, p), { th with pc := .popTick, ticks := th.ticks - 1 },
+        List.getElem?_set_self hilt, rfl, AOk_setPcTicks hA ?_ (by rw [hnp]; rfl)⟩
+      simp only [CurOk]; exact hc
+    simp only [htk]
     obtain ⟨cc, hcur, hpop⟩ := hc
     have htodo : c = cc :: th.prog := by have := hA.todo; simp only [hcur] at this; simpa using this
     have hp : p = .idle := hA.npost hnp
@@ -452,6 +468,7 @@ theorem auto_own_step {s : State} {g : Ghost} (hG : GInv s g) {i : Nat} {th : Th
   | pushYield v => dsimp only; quiet_step
   | popLoadHead => dsimp only; quiet_step
   | popLoadNext h => dsimp only; quiet_step
+  | popTick => dsimp only; quiet_step
   | popYield =>
     dsimp only
     have hc := hA.cur
@@ -561,13 +578,13 @@ theorem accepts_trace (vals : List Int) (progs : List (List Call)) (σ : List Na
     (pr : List Call) (hj : progs[j]? = some pr) :
     ∃ st' th', (run .addThenStore (init vals progs) σ).1.threads[j]? = some th' ∧
       accepts j (pr, .idle) (trace (init vals progs) σ) = some st' ∧
-      st'.1 = th'.cur.toList ++ th'.prog := by
+      st'.1 = th'.cur.toList ++ th'.prog ∧ (isPopPost th'.pc = false → st'.2 = .idle) := by
   have hth : (init vals progs).threads[j]? = some (mkThread pr) := by
     simp [init, List.getElem?_map, hj]
   have hA : AOk (ginit vals progs) j (mkThread pr) (pr, .idle) := AOk_finish rfl
   obtain ⟨st', th', h1, h2, h3⟩ := accepts_trace_gen (ginv_init vals progs) hth hA σ
   rw [lrun_fst] at h1
-  exact ⟨st', th', h1, h2, h3.todo⟩
+  exact ⟨st', th', h1, h2, h3.todo, h3.npost⟩
 
 /-! ### the head index counts the linearized pops -/
 
@@ -592,7 +609,7 @@ theorem head_step {s : State} (hI : Inv s) (i : Nat) :
         simp [State.setPc, poppedVals, Lin.popped?, hc]
       · simp only [if_neg hc]
         unfold State.popFail
-        split <;> simp [State.setPc, State.fin, poppedVals]
+        (repeat' split) <;> simp [State.setPc, State.fin, poppedVals]
     | popLoadTail h =>
       dsimp only
       unfold State.popFail
@@ -615,5 +632,116 @@ theorem head_counts_pops {s : State} (hI : Inv s) (σ : List Nat) :
     rw [ih (inv_step hI i), head_step hI i]
     simp only [poppedVals, List.filterMap_append, List.length_append]
     omega
+
+/-! ### what a thread takes from the list it returns -/
+
+/-- the value a call holds between its linearization point and its return -/
+def Phase.vals : Phase → List Int
+  | .popped x => [x]
+  | _ => []
+
+/-- value removed from the list by a linearization event of thread `j` -/
+def TEv.linPop? (j : Nat) : TEv → Option Int
+  | .lin (.pop k x) => if k = j then some x else none
+  | _ => none
+
+/-- value delivered to the caller by a return `(x, true)` of thread `j` -/
+def TEv.retTrue? (j : Nat) : TEv → Option Int
+  | .ret k (.pop x true) => if k = j then some x else none
+  | _ => none
+
+theorem autoOwn_conservation {j : Nat} {st st1 : List Call × Phase} {e : TEv}
+    (h : autoOwn st e = some st1) (ht : e.tid = j) :
+    st.2.vals ++ (e.linPop? j).toList = (e.retTrue? j).toList ++ st1.2.vals := by
+  obtain ⟨c, p⟩ := st
+  unfold autoOwn at h
+  cases c with
+  | nil => simp at h
+  | cons c0 rest =>
+    dsimp only at h
+    cases e with
+    | lin l =>
+      cases l with
+      | push k w =>
+        dsimp only at h
+        split at h
+        · rename_i hc; obtain rfl := Option.some.inj h
+          simp [Phase.vals, hc.2, TEv.linPop?, TEv.retTrue?]
+        · simp at h
+      | pop k x =>
+        dsimp only at h
+        simp only [TEv.tid] at ht
+        split at h
+        · rename_i hc; obtain rfl := Option.some.inj h
+          simp [Phase.vals, hc.2, TEv.linPop?, TEv.retTrue?, ht]
+        · simp at h
+    | ret k r =>
+      simp only [TEv.tid] at ht
+      cases r with
+      | push =>
+        dsimp only at h
+        split at h
+        · rename_i hc; obtain rfl := Option.some.inj h
+          simp [Phase.vals, hc.2, TEv.linPop?, TEv.retTrue?]
+        · simp at h
+      | pop y b =>
+        cases b with
+        | true =>
+          dsimp only at h
+          split at h
+          · rename_i hc; obtain rfl := Option.some.inj h
+            simp [Phase.vals, hc.2, TEv.linPop?, TEv.retTrue?, ht]
+          · simp at h
+        | false =>
+          dsimp only at h
+          split at h
+          · rename_i hc; obtain rfl := Option.some.inj h
+            simp [Phase.vals, hc.2, TEv.linPop?, TEv.retTrue?]
+          · simp at h
+      | len n =>
+        dsimp only at h
+        split at h
+        · rename_i hc; obtain rfl := Option.some.inj h
+          simp [Phase.vals, hc.2, TEv.linPop?, TEv.retTrue?]
+        · simp at h
+      | panic => simp at h
+
+theorem not_own_none {j : Nat} {e : TEv} (ht : e.tid ≠ j) :
+    e.linPop? j = none ∧ e.retTrue? j = none := by
+  cases e with
+  | lin l => cases l <;> simp_all [TEv.tid, TEv.linPop?, TEv.retTrue?]
+  | ret k r =>
+    cases r with
+    | pop v ok => cases ok <;> simp_all [TEv.tid, TEv.linPop?, TEv.retTrue?]
+    | _ => simp_all [TEv.tid, TEv.linPop?, TEv.retTrue?]
+
+/-- Whatever event sequence thread `j`'s automaton accepts: (value held at the start) ++
+(values its lin events removed from the list) = (values its calls returned with `true`) ++
+(value held at the end). -/
+theorem accepts_conservation {j : Nat} {st st' : List Call × Phase} {es : List TEv}
+    (h : accepts j st es = some st') :
+    st.2.vals ++ es.filterMap (TEv.linPop? j) = es.filterMap (TEv.retTrue? j) ++ st'.2.vals := by
+  induction es generalizing st with
+  | nil => simp only [accepts, Option.some.injEq] at h; subst h; simp
+  | cons e es ih =>
+    simp only [accepts] at h
+    cases h1 : auto j st e with
+    | none => rw [h1] at h; simp at h
+    | some st1 =>
+      rw [h1, Option.bind_some] at h
+      have ih' := ih h
+      unfold auto at h1
+      by_cases ht : e.tid = j
+      · rw [if_pos ht] at h1
+        have hc := autoOwn_conservation h1 ht
+        simp only [List.filterMap_cons]
+        cases hl : e.linPop? j <;> cases hr : e.retTrue? j <;> rw [hl, hr] at hc <;>
+          simp only [Option.toList, List.append_nil, List.nil_append] at hc <;>
+          simp only [] <;> grind
+      · rw [if_neg ht] at h1
+        obtain rfl := Option.some.inj h1
+        have := not_own_none ht
+        simp only [List.filterMap_cons, this.1, this.2]
+        exact ih'
 
 end Golib.C11
